@@ -2,8 +2,8 @@
 """Print the seeded-change / check matrix (markdown) from seeded/*/meta.json and result.json."""
 import json, os
 root = os.path.join(os.path.dirname(os.path.dirname(os.path.abspath(__file__))), "seeded")
-print("| seeded change | breaks | needs to manifest | quick check result | signatures reported |")
-print("|---|---|---|---|---|")
+print("| seeded change | breaks | needs to manifest | quick check result | signatures reported | machinery |")
+print("|---|---|---|---|---|---|")
 for d in sorted(os.listdir(root)):
     mp = os.path.join(root, d, "meta.json")
     if not os.path.exists(mp):
@@ -14,4 +14,5 @@ for d in sorted(os.listdir(root)):
     res = "not run" if r is None else ("**caught** (exit 1)" if r["detected"] else "missed (exit 0)")
     sigs = "; ".join(s for c in (r or {}).get("checks", []) for s in c["signatures"][:2]) if r else ""
     needs = (m.get("needs") or "").replace("\n", " ").replace("|", "/")
-    print(f"| `{d}` | {m['property']} | {needs[:230]}{'…' if len(needs) > 230 else ''} | {res} | `{sigs[:160]}` |")
+    vc = (r or {}).get("verif_commit") or "round 1"
+    print(f"| `{d}` | {m['property']} | {needs[:230]}{'…' if len(needs) > 230 else ''} | {res} | `{sigs[:160]}` | {vc} |")
